@@ -84,6 +84,20 @@ func runC13(w *World, r *Report) {
 		r.Check(bad == "", "C13.panic-opaque", "internal/safe.panicErr method set", pe.Obj().Pos(), "Error only: errors.Is / errors.As stop at the panic wrapper", "panicErr has method "+bad+": errors.As(err, *subGraphInterruptError) / errors.Is(err, InterruptAndRerun) in resolveInterruptCompletedTasks and isInterruptError in wrapGraphNodeError now see through a recovered panic — `panic(fmt.Errorf(\"…: %w\", err))` with an inner graph's interrupt error makes the run report an interrupt (checkpoint written, node re-run on resume) instead of the node's failure, and the node path is not attached")
 	}
 
+	r.Rule("C13.no-dead-default", "no function literal in the module is built and then used by nothing: a default prepared for a nil configuration entry and then forgotten leaves the nil in place, and the first call through it is a nil-function panic out of the component (shared with C10)", 0)
+	{
+		n := 0
+		for _, fn := range w.RepoFuncs("schema", "internal", "flow", "callbacks", "components", "utils", "compose") {
+			for _, mc := range deadClosures(fn) {
+				n++
+				r.Fail("C13.no-dead-default", fmt.Sprintf("%s: literal %s is never used", w.fname(fn), mc.Fn.Name()), mc.Fn.Pos(), "the literal is built and dropped — what follows goes on using the value it was meant to replace: router.NewRetriever builds a default router when Config.Router is nil and then stores Config.Router; every Retrieve on such a retriever calls a nil function — a panic out of Retrieve when called directly (nothing recovers it), a started-and-never-ended callback unit and a node panic inside a graph")
+			}
+		}
+		if n == 0 {
+			r.OK("C13.no-dead-default", "function literals of the module", token.NoPos, "every literal has a use")
+		}
+	}
+
 	r.Rule("C13.percent-w", "fmt.Errorf with an error operand on the run path uses %w", 30)
 	// armed: the framework's own propagation path between a node's return and the run's return, i.e.
 	// package compose functions reachable from the run entry points. Other packages are listed as info
